@@ -951,6 +951,8 @@ def _unconditional_in(holder, call):
     def walk(n, cond):
         if n is call:
             return not cond
+        if isinstance(n, (ast.ListComp, ast.SetComp, ast.DictComp)) and any(x is call for x in ast.walk(n.generators[0].iter)):
+            return walk(n.generators[0].iter, cond)        # the iterable of the first generator is evaluated once, at once
         if isinstance(n, (ast.Lambda, ast.ListComp, ast.SetComp, ast.DictComp, ast.GeneratorExp)):
             return None if not any(x is call for x in ast.walk(n)) else False
         if isinstance(n, ast.BoolOp):
